@@ -50,6 +50,7 @@ from pathlib import Path
 from harness import common
 from . import c20rx
 from . import c20diag
+from . import c20late
 
 KIND_OF_CLASS = {
     "FortranSourceFile": "file",
@@ -625,7 +626,7 @@ def generate() -> str:
          "/-- files ending in each state of the reader (default marks) and what FortranReader does on them -/",
          "def eofProbes : List (List Str × ProbeObs) :=",
          "  [" + ",\n   ".join("(" + lean_list(lean_chars(l) for l in lines) + ", " + obs_lean(o) + ")" for lines, o in eof) + "]",
-         ""] + c20rx.lean_table(lean_chars) + [""] + c20diag.lean_table() + ["", "end Ford.Gen", ""]
+         ""] + c20rx.lean_table(lean_chars) + [""] + c20diag.lean_table() + [""] + c20late.lean_table(lean_chars, lean_list) + ["", "end Ford.Gen", ""]
     return "\n".join(L)
 
 
